@@ -26,6 +26,7 @@ import (
 	transport_quic "github.com/aperturerobotics/bifrost/transport/common/quic"
 	"github.com/quic-go/quic-go"
 	"github.com/sirupsen/logrus"
+	"verifharness/cmd/dial/dscen"
 	"verifharness/cmd/dial/qmem"
 	"verifharness/internal/hx"
 )
@@ -307,7 +308,7 @@ func genRecipe(c *hx.Ctx) (recipe, string) {
 }
 
 func run(c *hx.Ctx) {
-	c.Imports = "Lib.Sym Tls.Model Tls.Run"
+	c.Imports = "Lib.Sym Link.Model Dial.Model Tls.Model Tls.Run"
 	c.Type = "c03_case"
 	c.Agree = "c03_agree"
 	if c.Prop != "C03" {
@@ -461,6 +462,16 @@ func run(c *hx.Ctx) {
 	for i := 0; i < nShake; i++ {
 		shake(c)
 	}
+	// expected-peer enforcement at the level callers use it: Transport.DialPeer
+	// on a pconn/quic transport (dial function with an EMPTY TLS constraint +
+	// post-check), overlapping and sequential dials of one address with
+	// different expected peers, intended peer / impostor / nobody answering
+	nDial := c.N / 10
+	if nDial < 10 {
+		nDial = 10
+	}
+	dscen.RunExpectedPeer(c, nDial, "link-to-caller-names-other-peer", "SharedDial",
+		"call %d required peer%d at the address but was handed a link to peer %d")
 }
 
 // ---------------------------------------------------------------------------
